@@ -40,6 +40,7 @@ fn run_job(job: &Sexp) -> String {
         "builder" => builder::job_builder(job),
         "literal" => lit::job_literal(job),
         "litapi" => lit::job_litapi(job),
+        "parg" => lit::job_parg(job),
         "exhaust" => exhaust::job_exhaust(job),
         "program" => prog::job_program(job),
         "lower" => prog::job_lower(job),
